@@ -28,6 +28,7 @@ def zerrOf : Rs.ZipErr → ZErr
   | .InvalidArchive => .invalidArchive
   | .UnsupportedArchive => .unsupportedArchive
   | .FileNotFound => .fileNotFound
+  | .PasswordRequired => .passwordRequired
 
 /-- Outcome of a translated writer function as the model states it: the chunk list on success,
 the error, or a panic (the model's panic-site string is not part of the comparison). -/
